@@ -18,9 +18,7 @@ def reduceGroups (view : NDArr α) (axes : List Nat) : NDArr (List α) :=
   let redIdx := cartesian (red.map (fun a => List.range (view.shape.getD a 0)))
   let full (ki ri : List Nat) : List Nat :=
     (List.range rank).map (fun a =>
-      match keep.findIdx? (· == a) with
-      | some p => ki.getD p 0
-      | none => ri.getD (red.findIdx (· == a)) 0)
+      if axes.contains a then ri.getD (red.idxOf a) 0 else ki.getD (keep.idxOf a) 0)
   { shape := keep.map (fun a => view.shape.getD a 0),
     flat := keepIdx.map (fun ki => redIdx.map (fun ri => view.get (full ki ri))) }
 
